@@ -9,9 +9,7 @@
    (the harness built a request that is not valid for the document),
    171 known-finding class K7a (a parameter that belongs to a flattened struct
    and is of integer or bool type: documented like any other, refused whatever
-   its value), 172 known-finding class K7b (a response type Option<T> with T a
-   referenceable type is documented as a bare reference to T: the nullable
-   marker is lost, and the body of None, null, is not valid for it). *)
+   its value). *)
 From Coq Require Import String.
 From DS Require Import Base Json Schema J2Oas SchemaSem Utf8 Pct Scalars Query.
 From DS Require Import Params DocTruth.
@@ -24,7 +22,6 @@ Definition V_VIOLATION : N := 1.
 Definition V_DIVERGE : N := 2.
 Definition V_MALFORMED : N := 9.
 Definition V_K7A : N := 171.
-Definition V_K7B : N := 172.
 
 (* ------------------------------------------------------------ the document *)
 
@@ -89,16 +86,16 @@ Inductive s2sobs :=
 
 Inductive c07case :=
 (* one request to one operation *)
-| CReq (pp pq : option pspec)
-       (rnull : bool)     (* the response body type is Option<T>, T referenceable *)
-       (op : docop) (comps : list (str * oschema))
+| CReq (pp pq : option pspec) (op : docop) (comps : list (str * oschema))
        (req : docreq) (obs : c07obs)
 (* one operation of the document against the model: the parameter structs'
    specifications and titles, the response type (None: hand-rolled
    Response<Body>), the declared response header names, whether the error
-   type is dropshot's HttpError *)
+   type is dropshot's HttpError, the body extractor, and - when the response
+   body type is Option<T> for a referenceable T - T's reference *)
 | CDoc (pp pq : option pspec) (tp tq : str) (rk : option (ckind * bkind))
        (hdrs : list str) (http_error : bool) (bx : option body_extractor)
+       (optref : option str)
        (op : docop) (comps : list (str * oschema))
 (* schema2struct alone: an arbitrary schema as Query<T>'s schema *)
 | CS2S (defs : list (str * schema)) (s : schema) (obs : s2sobs).
@@ -285,20 +282,7 @@ Definition k7_class (pp pq : option pspec) (req : docreq) : bool :=
 
 Definition is_4xx (st : N) : bool := (400 <=? st) && (st <? 500).
 
-(* K7b: the body is null and the schema documented for it is a bare reference
-   to a component that does not accept null *)
-Definition k7b_shape (comps : list (str * oschema)) (op : docop) (o : c07obs) : bool :=
-  match find_resp (do_responses op) (ob_status o), ob_body o, ob_ctype o with
-  | Some r, ObJson JNull, Some ct =>
-      match content_lookup (dr_content r) (media_type ct) with
-      | Some (Some (ORef n)) =>
-          str_eqb (media_type ct) S_APPLICATION_JSON && negb (envO comps n JNull)
-      | _ => false
-      end
-  | _, _, _ => false
-  end.
-
-Definition judge_req (pp pq : option pspec) (rnull : bool) (op : docop)
+Definition judge_req (pp pq : option pspec) (op : docop)
            (comps : list (str * oschema)) (req : docreq) (o : c07obs) : N :=
   if negb (req_wf comps op req && specs_match pp pq op) then V_MALFORMED else
   let accepted := ob_entered o =? 1 in
@@ -311,7 +295,6 @@ Definition judge_req (pp pq : option pspec) (rnull : bool) (op : docop)
     if accepted && resp then
       (if model_acc && headers_ok op o then V_AGREE else V_DIVERGE)
     else if k7_class pp pq req && refused && resp && negb model_acc then V_K7A
-    else if rnull && accepted && model_acc && k7b_shape comps op o then V_K7B
     else V_VIOLATION
   else
     (* clause 1b: a required parameter is missing: 4xx, handler not entered;
@@ -367,7 +350,7 @@ Definition error_entry_ok (r : option dresp) : bool :=
 
 Definition judge_doc (pp pq : option pspec) (tp tq : str) (rk : option (ckind * bkind))
            (hdrs : list str) (http_error : bool) (bx : option body_extractor)
-           (op : docop) (comps : list (str * oschema)) : N :=
+           (optref : option str) (op : docop) (comps : list (str * oschema)) : N :=
   let params_ok :=
     match model_params LPath tp pp, model_params LQuery tq pq with
     | Ok a, Ok b => list_eqb dparam_eqb (a ++ b) (do_params op)
@@ -384,6 +367,16 @@ Definition judge_doc (pp pq : option pspec) (tp tq : str) (rk : option (ckind * 
             str_eqb (dr_description r) (rd_description d)
             && content_shape_ok (rd_content d) (dr_content r)
             && list_eqb str_eqb (map fst (dr_headers r)) hdrs
+            (* Option<T>, T referenceable: the nullable marker is published *)
+            && match optref, dr_content r with
+               | None, _ => true
+               | Some n, [(_, Some s)] =>
+                   match j2oas None (option_ref_schema n) with
+                   | Ok m => Run_C08.oschema_eqb m s
+                   | Err _ => false
+                   end
+               | Some _, _ => false
+               end
         | None => false
         end
         (* exactly one response besides the error ranges *)
@@ -454,8 +447,8 @@ Definition judge_s2s (defs : list (str * schema)) (s : schema) (o : s2sobs) : N 
 
 Definition judge (c : c07case) : N :=
   match c with
-  | CReq pp pq rnull op comps req o => judge_req pp pq rnull op comps req o
-  | CDoc pp pq tp tq rk hdrs he bx op comps => judge_doc pp pq tp tq rk hdrs he bx op comps
+  | CReq pp pq op comps req o => judge_req pp pq op comps req o
+  | CDoc pp pq tp tq rk hdrs he bx optref op comps => judge_doc pp pq tp tq rk hdrs he bx optref op comps
   | CS2S defs s o => judge_s2s defs s o
   end.
 
@@ -467,7 +460,7 @@ Definition xvalid (comps : list (str * oschema)) (o : oschema) (j : json) : N :=
   if valid_oas (J2OasSpec.env_oas pat_doc fmt_true FUEL comps) pat_doc fmt_true o j then 1 else 0.
 Definition xvec (c : c07case) : list N :=
   match c with
-  | CReq _ _ _ op comps req o =>
+  | CReq _ _ op comps req o =>
       map (fun s => match find_param (do_params op) (se_name s) (se_loc s) with
                     | Some p => xvalid comps (dp_schema p) (se_value s)
                     | None => 9
